@@ -22,6 +22,7 @@ type cfgT struct {
 	nets    []*net.IPNet
 	Headers []string // header names in configuration order; nil = default
 	MaxHops int      // as configured (0 = default 1)
+	Diag    bool     `json:",omitempty"` // router.WithDiagnostics installed (must not change any answer)
 }
 
 type reqT struct {
@@ -39,6 +40,13 @@ type caseT struct {
 	Prev *reqT `json:",omitempty"`
 	// Conc: the other requests served concurrently on the same router while Q was served.
 	Conc []reqT `json:",omitempty"`
+	// Before: requests served earlier on the same router (the router must be stateless per request).
+	Before []reqT `json:",omitempty"`
+	// Other: configuration of ANOTHER router in the same process that served a request just before;
+	// Site: where ClientIP() was called from ("" = route handler, "noroute" = custom NoRoute handler reached
+	// through a method without any route tree, "nf" = NoRoute on a method with a tree, "mw" = global middleware).
+	Other *cfgT  `json:",omitempty"`
+	Site  string `json:",omitempty"`
 }
 
 var cidrPool = [][]string{
@@ -106,6 +114,7 @@ func genCase(r *hx.Rand) (cfgT, reqT) {
 		}
 	}
 	c.MaxHops = r.Range(0, 5)
+	c.Diag = r.Chance(1, 3)
 	var q reqT
 	peer := ""
 	switch r.Intn(10) {
@@ -335,6 +344,15 @@ func emitObs(id string, k caseT, res string, ok bool, st *hx.Stats) string {
 	if st != nil && k.Conc != nil {
 		st.Count("served_concurrently")
 	}
+	if st != nil && k.Before != nil {
+		st.Count("not_first_request_on_router")
+	}
+	if st != nil && k.Other != nil {
+		st.Count("other_router_served_before_site_" + k.Site)
+	}
+	if st != nil && c.Diag {
+		st.Count("diagnostics_on")
+	}
 	return l.String() + hx.Comment(k)
 }
 
@@ -350,7 +368,11 @@ func newRouter(c cfgT) *router.Router {
 	if c.MaxHops != 0 {
 		opts = append(opts, router.WithProxyMaxHops(c.MaxHops))
 	}
-	return router.MustNew(router.WithTrustedProxies(opts...))
+	ro := []router.Option{router.WithTrustedProxies(opts...)}
+	if c.Diag {
+		ro = append(ro, router.WithDiagnostics(router.DiagnosticHandlerFunc(func(router.DiagnosticEvent) {})))
+	}
+	return router.MustNew(ro...)
 }
 
 func applyReq(req *http.Request, q reqT) {
@@ -361,6 +383,86 @@ func applyReq(req *http.Request, q reqT) {
 	for k, v := range q.Hdr {
 		req.Header.Set(k, v)
 	}
+}
+
+// serveOn serves q on router r at the given call site and returns what ClientIP() answered there.
+func serveOn(r *router.Router, q reqT, site string, out *string, ok *bool) {
+	method, path := http.MethodGet, "/ip"
+	switch site {
+	case "noroute":
+		method, path = http.MethodDelete, "/nothing/here" // no DELETE tree at all
+	case "nf":
+		path = "/nothing/here"
+	}
+	req := httptest.NewRequest(method, path, nil)
+	applyReq(req, q)
+	func() {
+		defer func() {
+			if p := recover(); p != nil {
+				*ok = false
+			}
+		}()
+		r.ServeHTTP(httptest.NewRecorder(), req)
+	}()
+}
+
+// siteRouter builds a router whose handler at `site` records ClientIP().
+func siteRouter(c cfgT, site string, out *string, ok *bool) *router.Router {
+	r := newRouter(c)
+	rec := func(ctx *router.Context) {
+		defer func() {
+			if p := recover(); p != nil {
+				*ok = false
+			}
+		}()
+		*out = ctx.ClientIP()
+	}
+	if site == "mw" {
+		r.Use(func(ctx *router.Context) { rec(ctx); ctx.Next() })
+		r.GET("/ip", func(ctx *router.Context) {})
+	} else {
+		r.GET("/ip", rec)
+	}
+	r.NoRoute(rec)
+	return r
+}
+
+// observeSession serves qs one after the other on ONE router and returns each answer.
+func observeSession(c cfgT, qs []reqT) (res []string, oks []bool) {
+	var out string
+	ok := true
+	r := siteRouter(c, "", &out, &ok)
+	for _, q := range qs {
+		out, ok = "", true
+		serveOn(r, q, "", &out, &ok)
+		res = append(res, out)
+		oks = append(oks, ok)
+	}
+	return
+}
+
+// observeAfterOther: router A (configuration other) serves a request first — the pooled context then carries
+// A — and router B (configuration c) answers q at the given call site.
+func observeAfterOther(other, c cfgT, qa, q reqT, site string) (string, bool) {
+	var outA, outB string
+	okA, okB := true, true
+	ra := siteRouter(other, "", &outA, &okA)
+	rb := siteRouter(c, site, &outB, &okB)
+	for i := 0; i < 3; i++ { // a few rounds so that pooled objects really change hands
+		serveOn(ra, qa, "", &outA, &okA)
+		outB, okB = "", true
+		serveOn(rb, q, site, &outB, &okB)
+	}
+	return outB, okB
+}
+
+// v6WithLow32 is an (untrusted) IPv6 address whose low 32 bits equal the given IPv4 address.
+func v6WithLow32(v4 string) string {
+	ip := net.ParseIP(v4).To4()
+	if ip == nil {
+		return "2001:db8:ffff::1"
+	}
+	return fmt.Sprintf("2001:4860::%x:%x", int(ip[0])<<8|int(ip[1]), int(ip[2])<<8|int(ip[3]))
 }
 
 // observeTwice: a middleware calls ClientIP() on request state q1, the request is then changed IN PLACE
@@ -468,6 +570,57 @@ func main() {
 			c, q := genCase(r)
 			fmt.Fprintln(w, emit(fmt.Sprintf("c18-%d-%d", a.Seed, i), c, q, st))
 		}
+		// sessions: several requests on ONE router, each judged on its own (the resolver must be stateless);
+		// later requests reuse addresses of earlier ones in other roles (IPv6 with the same low 32 bits, …)
+		for i := 0; i < a.N/12+4; i++ {
+			c, q0 := genCase(r)
+			n := r.Range(2, 6)
+			qs := []reqT{q0}
+			for j := 1; j < n; j++ {
+				_, q := genCase(r)
+				switch r.Intn(4) {
+				case 0: // the peer is an untrusted IPv6 look-alike of an earlier trusted IPv4 peer
+					q.Remote = "[" + v6WithLow32(peerOf(qs[j-1].Remote)) + "]:443"
+					if q.Hdr["X-Forwarded-For"] == "" {
+						q.Hdr["X-Forwarded-For"] = "6.6.6.6"
+					}
+				case 1: // … or such a look-alike sits in the chain
+					q.Hdr["X-Forwarded-For"] = "6.6.6.6, " + v6WithLow32(hx.Pick(r, trustedIPs))
+				}
+				qs = append(qs, q)
+			}
+			if i < 2 {
+				c = cfgT{Cidrs: []string{"10.0.0.0/8"}, MaxHops: 2}
+				qs = []reqT{{"10.0.0.1:1", map[string]string{"X-Forwarded-For": "9.9.9.9"}},
+					{"[" + v6WithLow32("10.0.0.1") + "]:1", map[string]string{"X-Forwarded-For": "6.6.6.6"}},
+					{"10.0.0.1:1", map[string]string{"X-Forwarded-For": "6.6.6.6, " + v6WithLow32("10.0.0.1")}}}
+			}
+			res, oks := observeSession(c, qs)
+			for j := range qs {
+				k := caseT{C: c, Q: qs[j]}
+				if j > 0 {
+					k.Before = qs[:j]
+				}
+				fmt.Fprintln(w, emitObs(fmt.Sprintf("c18-%d-s%d-%d", a.Seed, i, j), k, res[j], oks[j], st))
+			}
+		}
+		// another router with another configuration served a request just before; ClientIP() is called from
+		// a route handler, a global middleware, a custom NoRoute handler (method with and without a tree)
+		for i := 0; i < a.N/15+8; i++ {
+			other, qa := genCase(r)
+			c, q := genCase(r)
+			if i%2 == 0 { // A trusts everything, B trusts nothing: any leak of A's configuration into B shows
+				other = cfgT{Cidrs: []string{"0.0.0.0/0", "::/0"}, MaxHops: 5}
+				c.Cidrs = nil
+				qa = reqT{"10.0.0.1:1", map[string]string{"X-Forwarded-For": "7.7.7.7"}}
+				if q.Hdr["X-Forwarded-For"] == "" {
+					q.Hdr["X-Forwarded-For"] = "6.6.6.6"
+				}
+			}
+			site := hx.Pick(r, []string{"", "mw", "nf", "noroute", "noroute"})
+			res, ok := observeAfterOther(other, c, qa, q, site)
+			fmt.Fprintln(w, emitObs(fmt.Sprintf("c18-%d-o%d", a.Seed, i), caseT{C: c, Q: q, Other: &other, Site: site, Before: []reqT{qa}}, res, ok, st))
+		}
 		// two calls on one context with the request changed in place in between
 		for i := 0; i < a.N/10+4; i++ {
 			c, q1 := genCase(r)
@@ -528,6 +681,12 @@ func main() {
 				continue
 			}
 			switch {
+			case k.Other != nil:
+				res, ok := observeAfterOther(*k.Other, k.C, k.Before[0], k.Q, k.Site)
+				fmt.Fprintln(w, emitObs(id, k, res, ok, nil))
+			case k.Before != nil:
+				res, oks := observeSession(k.C, append(append([]reqT(nil), k.Before...), k.Q))
+				fmt.Fprintln(w, emitObs(id, k, res[len(res)-1], oks[len(oks)-1], nil))
 			case k.Prev != nil:
 				_, res2, ok := observeTwice(k.C, *k.Prev, k.Q)
 				fmt.Fprintln(w, emitObs(id, k, res2, ok, nil))
